@@ -98,6 +98,29 @@ func Trigger(name string, w *world.World) bool {
 			}
 			return false
 		})
+	case "musmaxsat": // the MaxSat-based MUS extraction method
+		return anyTask(w, func(t *world.TaskSpec) bool { return t.Kind == "mus" && t.Entry == "MUSMaxSat" })
+	case "cp-nonclausal": // cutting planes switched on for a problem that has (or gets) a non-clausal constraint
+		return anyTask(w, func(t *world.TaskSpec) bool {
+			cp := t.CP || t.Entry == "both" || t.Entry == "cp-both"
+			for _, a := range t.Argv {
+				if a == "-cp" {
+					cp = true
+				}
+			}
+			if !cp {
+				return false
+			}
+			if t.AMO || t.Kind == "cli" {
+				return true
+			}
+			for _, c := range t.Cons {
+				if c.K != 1 || c.Coefs != nil || (c.Op != "" && c.Op != ">=") {
+					return true
+				}
+			}
+			return false
+		})
 	case "cutting-planes": // the cutting-planes strategy is switched on
 		return anyTask(w, func(t *world.TaskSpec) bool {
 			if t.CP || t.Entry == "both" || t.Entry == "cp-both" {
